@@ -1,11 +1,13 @@
 import AsynqModel.Sexp
 import AsynqModel.Drv.Futures
+import AsynqModel.Drv.Core
 open AsynqModel
 
 /-- dispatch one case to the model of its mode -/
 def handleCase (mode : String) (id : Nat) (hdr body : List Sexp) : String :=
   match mode with
   | "futures" => Drv.Futures.handle id hdr body
+  | "core" => Drv.Core.handle id hdr body
   | _ => s!"R {id} CORR=diff SPEC=ok SPECM=ok | unknown mode {mode}"
 
 partial def loop (h : IO.FS.Stream) (cur : Option (String × Nat × List Sexp)) (acc : Array Sexp) : IO Unit := do
